@@ -237,6 +237,9 @@ def build_start(s, rs_seed, R, keys, decay=1.0, disp=0.03, cmode="wf"):
         X = crandom(rng, (len(Rs), nw, nw) + (3,) * nc) * damp.reshape((-1,) + (1,) * (2 + nc))
         if key in wbsys.HERMITIAN_KEYS:
             X = wbsys.hermitize(X, iRvec)
+        if key == "FF":  # FF_ab(-R) = FF_ba(R)^dagger
+            idx = {R: i for i, R in enumerate(Rs)}
+            X = np.array([0.5 * (X[i] + np.conj(np.transpose(X[idx[tuple(-x for x in R)]], (1, 0, 3, 2)))) for i, R in enumerate(Rs)])
         if key == "AA":
             X[Rs.index((0, 0, 0)), np.arange(nw), np.arange(nw)] = 0
         mats[key] = X
